@@ -40,6 +40,7 @@ type runner struct {
 	sf   bool
 	auto bool
 	noep bool
+	neg  bool // negative tags filter (t neq drop): admits untagged publications
 	server bool  // server-side Client.Subscribe instead of a subscribe command
 	subErr error // what Client.Subscribe returned
 	winAtRead []int // offsets retained in history when it was read
@@ -200,7 +201,7 @@ func newWorker(histSize, recLimit int) (*worker, error) {
 			}
 			opts.AllowTagsFilter = true
 			if r.filt && r.sf {
-				opts.ServerTagsFilter = &centrifuge.FilterNode{Key: "t", Cmp: "eq", Val: "keep"}
+				opts.ServerTagsFilter = r.filterNode()
 			}
 		}
 		cb(centrifuge.SubscribeReply{Options: opts}, nil)
@@ -305,8 +306,27 @@ func sameFrames(a, b []frame) bool {
 
 // ---------------------------------------------------------------- observable-only monitors (same formulas as SubStream.tla)
 
+// excluded: the subscription's tags filter withholds a publication with this tag ("none" = untagged)
+func (r *runner) excluded(tag string) bool {
+	if !r.filt {
+		return false
+	}
+	if r.neg {
+		return tag == "drop"
+	}
+	return tag != "keep"
+}
+
 func (r *runner) filtered(off int) bool {
-	return r.filt && off >= 1 && off <= len(r.tags) && r.tags[off-1] == "drop"
+	return off >= 1 && off <= len(r.tags) && r.excluded(r.tags[off-1])
+}
+
+// filterNode is the subscription's tags filter: positive (t eq keep) or negative (t neq drop)
+func (r *runner) filterNode() *protocol.FilterNode {
+	if r.neg {
+		return &protocol.FilterNode{Key: "t", Cmp: "neq", Val: "drop"}
+	}
+	return &protocol.FilterNode{Key: "t", Cmp: "eq", Val: "keep"}
 }
 
 type verdict struct{ prop, sig, what string }
@@ -382,7 +402,7 @@ func (r *runner) monitors(out []frame) []verdict {
 		}
 		if f.T == "pub" && f.Off == 0 && r.filt {
 			// offset-less publications: identify by payload id
-			if f.ID >= 1 && f.ID <= len(r.tags) && r.tags[f.ID-1] == "drop" {
+			if f.ID >= 1 && f.ID <= len(r.tags) && r.excluded(r.tags[f.ID-1]) {
 				vs = append(vs, verdict{"C16", "live-filtered-nooffset", fmt.Sprintf("publication #%d excluded by the tags filter was pushed", f.ID)})
 			}
 		}
@@ -466,7 +486,7 @@ func tagsFilter() *protocol.FilterNode {
 
 func (w *worker) run(bi int, beh []map[string]any, res *vh.Result) {
 	cfg := vh.Map(beh[0]["cfg"])
-	r := &runner{w: w, ch: fmt.Sprintf("ss%d_%d", vh.Seed(), bi), cfg: cfg, kind: vh.Str(cfg["kind"]), filt: vh.Bool(cfg["filt"]), sf: vh.Bool(cfg["sf"]), auto: vh.Bool(cfg["auto"]), noep: vh.Bool(cfg["noep"]), server: vh.Bool(cfg["server"]),
+	r := &runner{w: w, ch: fmt.Sprintf("ss%d_%d", vh.Seed(), bi), cfg: cfg, kind: vh.Str(cfg["kind"]), filt: vh.Bool(cfg["filt"]), sf: vh.Bool(cfg["sf"]), auto: vh.Bool(cfg["auto"]), noep: vh.Bool(cfg["noep"]), neg: vh.Bool(cfg["neg"]), server: vh.Bool(cfg["server"]),
 		deliveries: map[int]delivery{}, g1: cl.NewGate()}
 	if r.kind == "pos" || r.kind == "rec" || r.kind == "cache" {
 		r.g2, r.g3 = cl.NewGate(), cl.NewGate()
@@ -512,7 +532,10 @@ func (w *worker) run(bi int, beh []map[string]any, res *vh.Result) {
 			r.mu.Lock()
 			r.curID = id
 			r.mu.Unlock()
-			opts := []centrifuge.PublishOption{centrifuge.WithTags(map[string]string{"t": tag})}
+			var opts []centrifuge.PublishOption
+			if tag != "none" {
+				opts = append(opts, centrifuge.WithTags(map[string]string{"t": tag}))
+			}
 			if r.kind != "nohist" {
 				opts = append(opts, centrifuge.WithHistory(w.hist, time.Minute))
 			}
@@ -572,7 +595,7 @@ func (w *worker) run(bi int, beh []map[string]any, res *vh.Result) {
 			r.subID = id
 			req := &protocol.SubscribeRequest{Channel: r.ch}
 			if r.filt && !r.sf {
-				req.Tf = tagsFilter()
+				req.Tf = r.filterNode()
 			}
 			if r.kind == "rec" || (r.kind == "cache" && !r.auto) {
 				since := vh.Map(cfg["since"])
@@ -601,7 +624,7 @@ func (w *worker) run(bi int, beh []map[string]any, res *vh.Result) {
 				}
 				if r.filt {
 					opts = append(opts, func(o *centrifuge.SubscribeOptions) {
-						o.ServerTagsFilter = &centrifuge.FilterNode{Key: "t", Cmp: "eq", Val: "keep"}
+						o.ServerTagsFilter = r.filterNode()
 					})
 				}
 				go func() {
